@@ -55,7 +55,7 @@ CHECKS = {
         "statement's table (exhaustive); chain calc_outcome is classified on every abstract input (board outcome none/strict/non-strict x "
         "0..7 occurrences): exactly one path applies and returns what the precedence prescribes; set_auto_outcome stores iff "
         "passes(filter); repetition table keyed by the Zobrist hash only with +1/-1 discipline. Occurrence counting over histories is not "
-        "decided (depends on C05 and inherent hash collisions). ADDED: the key the repetition table counts by distinguishes single-feature differences (the build's key tables are non-zero and distinct, incl. the 16 en-passant squares).",
+        "decided (depends on C05 and inherent hash collisions). ADDED: the key the repetition table counts by distinguishes single-feature differences (the build's key tables are non-zero and distinct, incl. the 16 en-passant squares). ADDED 2: the incremental-hash component (hash delta of every make arm = zobrist(post)^zobrist(pre); sets follow squares) is re-run here: repetitions are counted by that hash.",
    note=TB + "Board::calc_outcome is opaque here (C07)."),
  "C01": dict(cat="other", ref="DESIGN.md §3 C01",
    technique="path rules and term-set normal forms over the legality filter (pre-filter, Checker::is_legal, attack test, wrappers); per-site set-algebra evaluation of the generator against a reference predicate",
@@ -63,14 +63,14 @@ CHECKS = {
         "pin pre-filter may answer Some(true) only when not in check, mover unpinned/non-king and not en passant, and never decides on "
         "another path; Checker::is_legal evaluates the five-term reference attack test on the post-move occupancy with every captured man "
         "masked out, for the king-move, en-passant and general paths; Move::validate is semi_validate plus the same checker. This decides "
-        "the structure of the legality filter and the agreement of the three legality routes, and, ADDED: the semilegal generator is read as set algebra over the bitboards it iterates (rules/emitrules.py) and must emit S->D of each (kind, piece) exactly when the reference rules allow it, for all 64x64 pairs on abstract boards, both colours (sliding lookups as proved in C15; castling by the condition-set rule) - with the filter rules this ties legal generation to the rules; the legality checker's set arguments are compared as boolean functions.",
+        "the structure of the legality filter and the agreement of the three legality routes, and, ADDED: the semilegal generator is read as set algebra over the bitboards it iterates (rules/emitrules.py) and must emit S->D of each (kind, piece) exactly when the reference rules allow it, for all 64x64 pairs on abstract boards, both colours (sliding lookups as proved in C15; castling by the condition-set rule) - with the filter rules this ties legal generation to the rules; the legality checker's set arguments are compared as boolean functions. ADDED 3: the attack-query component (tables = geometric definition, magic subsets exact, five-term reduction of is_attacked) is re-run here, since the legality filter's test rests on it.",
    note=TB + "Tied to the single-blocker pin architecture of legal.rs: a different legality design needs new rules (stated in DESIGN.md)."),
  "C07": dict(cat="other", ref="DESIGN.md §3 C07",
    technique="decision-tree extraction and exhaustive evaluation on abstract inputs; emitter-set comparison over the resolved call graph",
    text="Static: calc_outcome is evaluated on every abstract input (moves x check x insufficient x 10 clock values x side) and must return "
         "the statement's outcome with its precedence; is_insufficient_material is compared with the statement on all 729 abstract material "
         "configurations after recognising its six predicates; has_legal_moves must reach exactly the emitters of the full generator "
-        "minus castling and stop at the first legal move. Does not decide that the move set or occupancy sets are right (C01/C05/C06).",
+        "minus castling and stop at the first legal move. Does not decide that the move set or occupancy sets are right (C01/C05/C06). ADDED: the legality-filter component (pin shortcut, pinned set, after-move test) and the attack-query component are re-run here: mate/stalemate rest on has_legal_moves and is_check.",
    note=TB + "Assumes: if castling is legal the king's single step is legal too (chess argument)."),
  "C16": dict(cat="other", ref="DESIGN.md §3 C16",
    technique="term-set normal form of the three sibling attack tests compared with the reference union of reverse lookups; table comparison; exhaustive magic-table comparison",
@@ -92,7 +92,7 @@ CHECKS = {
         "around 16, kings per side 0/1/2, back-rank pawn, opponent king attacked): it returns Ok exactly when no condition is violated and "
         "every reported reason holds; the only fields it rewrites are ep_source and castling, under exactly the documented eight castling "
         "conditions and the two en-passant conditions; the occupancy loop is wired colour->set, cell->pieces; the hash is the from-scratch "
-        "hash of the normalised board. The loop's arithmetic and idempotence are not evaluated separately.",
+        "hash of the normalised board. The loop's arithmetic and idempotence are not evaluated separately. ADDED: the attack-query component is re-run here (OpponentKingAttacked is do_is_cell_attacked on the opponent king).",
    note=TB + "count_ones(white/black/kings) are abstract inputs; their relation to the cells is the wiring rule V3."),
  "C02": dict(cat="other", ref="DESIGN.md §3 C02",
    technique="path classification of every Make::make_raw (certification of the unchecked make, rollback), certified-producer rule, writer ownership, abstract-board make rules; abstract interpretation for panic freedom; validator tabulation; compile-fail witnesses",
@@ -134,7 +134,7 @@ CHECKS = {
         "equality), unmake after decrement / make before increment on stack[board_pos]; next/prev update pos, synchronise the board to "
         "exactly the index of the move they return and hand out the walker's own board; the walker holds a shared slice and an owned "
         "board; GameStatus::from tabulated on all 23 inputs; list separator and from_uci_list structure. The shown positions then follow "
-        "from C03/C04; the text of a styled move itself is C09's. ADDED: StyledList::fmt is classified path by path: only walker moves in the requested style, numbers ('N. '/'N... ' first, ' N.' before later White moves, value = board number - first + start) and the final status are printed, with format templates decoded from the compiled constants; a compile-fail witness shows the chain cannot be mutated while a walker borrows it.",
+        "from C03/C04; the text of a styled move itself is C09's. ADDED: StyledList::fmt is classified path by path: only walker moves in the requested style, numbers ('N. '/'N... ' first, ' N.' before later White moves, value = board number - first + start) and the final status are printed, with format templates decoded from the compiled constants; a compile-fail witness shows the chain cannot be mutated while a walker borrows it. ADDED 2: the undo component (undo record read before any store; unmake restores squares, sets and scalars for every kind) is re-run here: stepping back unmakes on the walker's board; the UCI list separator is decided by evaluating the model of Display for chains of 0-3 moves.",
    note=TB + "The E0502 borrow witness runs in the quick tier as well."),
  "C18": dict(cat="other", ref="DESIGN.md §3 C18",
    technique="compile-time witnesses, table and tabulated-function mirror checks, dispatcher pairing, colour-branch inventory, index-function consistency lint; generator/validator comparison with a symmetric reference",
